@@ -527,4 +527,37 @@ theorem run_not_grpc (cd : Codec) (s : Stream) (fs : List Frame) (hs : s.enabled
     | data d b es =>
       simp [Stream.run, Stream.data, hs, Frame.forwarded, hrest]
 
+/-! ### frame lists, header scan (round 3) -/
+
+theorem runFrames_cons (cd : Codec) (a : Adapter) (f : Bytes) (rest : List Bytes) (es : Bool) (h : rest ≠ []) :
+    runFrames cd a (f :: rest) es = (data cd a f false).andThen (fun a' => runFrames cd a' rest es) := by
+  cases rest with
+  | nil => exact absurd rfl h
+  | cons g gs => rfl
+
+theorem andThen_ret (r : Res) : r.andThen (fun a' => ⟨[], some a'⟩) = r := by
+  cases r with
+  | mk calls next => cases next <;> simp [Res.andThen]
+
+theorem andThen_congr (r : Res) (f g : Adapter → Res) (h : ∀ a', r.next = some a' → f a' = g a') :
+    r.andThen f = r.andThen g := by
+  cases r with
+  | mk calls next =>
+    cases next with
+    | none => simp [Res.andThen]
+    | some a' => simp [Res.andThen, h a' rfl]
+
+theorem scanEncoding_append (e : Enc) (xs ys : List Header) :
+    scanEncoding e (xs ++ ys) =
+      if (scanEncoding e xs).2 then scanEncoding (scanEncoding e xs).1 ys else scanEncoding e xs := by
+  induction xs generalizing e with
+  | nil => simp [scanEncoding]
+  | cons h xs ih =>
+    obtain ⟨n, v⟩ := h
+    by_cases hn : n = geName
+    · cases hv : encOfName v with
+      | none => simp [scanEncoding, hn, hv]
+      | some e' => simp [scanEncoding, hn, hv, ih]
+    · simp [scanEncoding, hn, ih]
+
 end Martian.Grpc
